@@ -2,7 +2,7 @@
 From Coq Require Import String.
 From Coq Require Import List NArith ZArith Bool.
 From Dials Require Export Base.Outcome Base.Runes Reflect.Ty Transform.RType Transform.MAlias
-  Transform.Manglers Transform.Transformer Transform.WellFormed.
+  Transform.Manglers Transform.Transformer Transform.WellFormed Transform.CounterpartSpec.
 Import ListNotations.
 Open Scope N_scope.
 
@@ -166,8 +166,20 @@ Definition check (c : c10case) : N :=
                        if all_nil filled
                        then match impl with Ok (_, v) => val_eqb v (zero t) | _ => false end
                        else true in
-                     if negb exact || negb empty_ok || negb corr_v then 3
-                     else if corr_t then 0 else 1
+                     (* the by-name specification, where the chain has one: the
+                        property holds iff the implementation agrees with it *)
+                     let spec := match itt with
+                                 | Ok tti => counterpart_spec (case_env oracle) ms t tti filled
+                                 | _ => None
+                                 end in
+                     match spec with
+                     | Some sp =>
+                         if negb exact || negb empty_ok || negb (tval_out_eqb impl sp) then 3
+                         else if corr_t && corr_v then 0 else 1
+                     | None =>
+                         if negb exact || negb empty_ok || negb corr_v then 3
+                         else if corr_t then 0 else 1
+                     end
                end
            end
   end.
